@@ -19,8 +19,28 @@ def iv(v):
     return int(v)
 
 
+OVERFLOWS = []          # values that do not fit the 32-bit field they belong to (TLC integers are 32-bit)
+
+
+def pop_overflows():
+    out = list(OVERFLOWS)
+    del OVERFLOWS[:]
+    return out
+
+
+def si(v, what="signed field"):
+    """A signed 32-bit quantity; anything wider is recorded (and reported by the trace spec) instead of wrapping silently."""
+    v = iv(v)
+    if not -2 ** 31 <= v < 2 ** 31:
+        OVERFLOWS.append("%s=%d" % (what, v))
+        return 2 ** 31 - 1 if v > 0 else -2 ** 31
+    return v
+
+
 def L(v):
     v = iv(v)
+    if not 0 <= v < 2 ** 32:
+        OVERFLOWS.append("unsigned field=%d" % v)
     return [v % 65536, (v // 65536) % 65536]
 
 
@@ -81,7 +101,7 @@ def payload(mod, spec, ld=False):
                 "unused1": L(mod.unused1), "unused2": int(mod.unused2), "unused3": int(mod.unused3), "unused4": L(mod.unused4),
                 "unused5": int(mod.unused5), "unused6": L(mod.unused6), "volume_old": int(mod.volume_old),
                 "ins_finetune": int(mod.ins_finetune), "ins_relative_note": int(mod.ins_relative_note),
-                "editor_cursor": int(mod.editor_cursor), "editor_selected_size": int(mod.editor_selected_size),
+                "editor_cursor": si(mod.editor_cursor, "editor_cursor"), "editor_selected_size": si(mod.editor_selected_size, "editor_selected_size"),
                 "effect": [] if mod.effect is None else [project_any(mod.effect, spec, ld)],
                 "is_legacy": bool(mod.is_legacy)}
     if t == "MetaModule":
@@ -115,14 +135,14 @@ def module(mod, spec, ld=False):
     names = [c["name"] for c in st["ctls"]] if st else []
     attached = [n for n in names]
     d = {"kind": "module", "mtype": mod.mtype, "name": B(mod.name), "flags": L(mod.flags),
-         "fin": int(mod.mod_finetune), "rel": int(mod.mod_relative_note), "x": int(mod.x), "y": int(mod.y),
-         "layer": int(mod.layer), "scale": L(mod.scale), "vis": int(mod.visualization), "color": [int(c) for c in mod.color],
-         "midi_in_always": iv(mod.midi_in_always), "midi_in_channel": int(mod.midi_in_channel),
-         "moname": opt_text(mod.midi_out_name), "moch": int(mod.midi_out_channel), "mobank": int(mod.midi_out_bank),
-         "moprog": int(mod.midi_out_program),
-         "inl": [int(x) for x in mod.in_links], "ins": [int(x) for x in mod.in_link_slots],
-         "outl": [int(x) for x in mod.out_links], "outs": [int(x) for x in mod.out_link_slots],
-         "ctl": [iv(mod.controller_values[n]) for n in attached],
+         "fin": si(mod.mod_finetune, "finetune"), "rel": si(mod.mod_relative_note, "relative_note"), "x": si(mod.x, "module.x"), "y": si(mod.y, "module.y"),
+         "layer": si(mod.layer, "layer"), "scale": L(mod.scale), "vis": L(int(mod.visualization)), "color": [int(c) for c in mod.color],
+         "midi_in_always": iv(mod.midi_in_always), "midi_in_channel": si(mod.midi_in_channel, "midi_in_channel"),
+         "moname": opt_text(mod.midi_out_name), "moch": si(mod.midi_out_channel, "midi_out_channel"), "mobank": si(mod.midi_out_bank, "midi_out_bank"),
+         "moprog": si(mod.midi_out_program, "midi_out_program"),
+         "inl": [si(x, "link") for x in mod.in_links], "ins": [si(x, "link") for x in mod.in_link_slots],
+         "outl": [si(x, "link") for x in mod.out_links], "outs": [si(x, "link") for x in mod.out_link_slots],
+         "ctl": [si(mod.controller_values[n], "controller " + n) for n in attached],
          "cmid": [cmid(mod.controller_midi_maps[n]) for n in attached],
          "opts": [[n, iv(getattr(mod, n))] for n in (o["name"] for o in (st["opts"] if st else []))],   # YAML order
          "payload": payload(mod, spec, ld)}
@@ -134,10 +154,10 @@ def pattern(p):
     if p is None:
         return {"kind": "none"}
     if isinstance(p, api.PatternClone):
-        return {"kind": "clone", "source": L(p.source), "flags": L(p.flags_PFFF), "x": int(p.x), "y": int(p.y)}
+        return {"kind": "clone", "source": L(p.source), "flags": L(p.flags_PFFF), "x": si(p.x, "clone.x"), "y": si(p.y, "clone.y")}
     return {"kind": "pattern", "name": opt_text(p.name), "tracks": L(p.tracks), "lines": L(p.lines), "ysize": L(p.y_size),
             "pflg": L(p.flags_PFLG), "icon": list(p.icon), "fg": [int(c) for c in p.fg_color], "bg": [int(c) for c in p.bg_color],
-            "flags": L(p.flags_PFFF), "x": int(p.x), "y": int(p.y),
+            "flags": L(p.flags_PFFF), "x": si(p.x, "pattern.x"), "y": si(p.y, "pattern.y"),
             "cells": [[iv(n.note), int(n.vel), int(n.module), int(n.ctl), int(n.val)] for line in p.data for n in line]}
 
 
@@ -148,9 +168,9 @@ def project(p, spec, loaded=False):
                      "flags": L(p.flags), "syncmidi": iv(p.receive_sync_midi), "syncother": iv(p.receive_sync_other),
                      "bpm": L(p.initial_bpm), "tpl": L(p.initial_tpl), "tgrd": L(p.time_grid), "tgd2": L(p.time_grid2),
                      "gvol": L(p.global_volume), "name": B(p.name), "mscl": L(p.modules_scale), "mzoo": L(p.modules_zoom),
-                     "mxof": int(p.modules_x_offset), "myof": int(p.modules_y_offset), "lmsk": L(p.modules_layer_mask),
-                     "curl": L(p.modules_current_layer), "time": int(p.timeline_position), "reps": int(p.restart_position),
-                     "sels": L(p.selected_module), "lgen": int(p.selected_generator), "patn": L(p.current_pattern),
+                     "mxof": si(p.modules_x_offset, "modules_x_offset"), "myof": si(p.modules_y_offset, "modules_y_offset"), "lmsk": L(p.modules_layer_mask),
+                     "curl": L(p.modules_current_layer), "time": si(p.timeline_position, "timeline_position"), "reps": si(p.restart_position, "restart_position"),
+                     "sels": L(p.selected_module), "lgen": si(p.selected_generator, "selected_generator"), "patn": L(p.current_pattern),
                      "patt": L(p.current_track), "patl": L(p.current_line)},
             "patterns": [pattern(x) for x in p.patterns],
             "modules": [module(x, spec, loaded) for x in p.modules]}
